@@ -300,7 +300,12 @@ def tasks(tier):
     from contracts.dul_reactor import DulReactorTask, TransportEventTask
     from contracts.C07 import RunReactorTask
     return [ConnectTask(), AcceptedSocketTask(), GetMsgTask(), ReceivePduTask(), BlockingCallScan(), QueueScan(), DulReactorTask(), RunReactorTask(),
-            TransportEventTask(), _negotiate_release(), _release_call()]
+            TransportEventTask(), _negotiate_release(), _release_call(), _kill_call()]
+
+
+def _kill_call():
+    from contracts.assoc_abort import KillTask
+    return KillTask("C08/")
 
 
 def _release_call():
